@@ -358,7 +358,7 @@ class Circuit(object):
         """
 
         # we're already closed; nothing to do
-        if self.state == 'CLOSED':
+        if self.state in ('CLOSED', 'FAILED'):
             return defer.succeed(None)
 
         # someone already called close() but we're not closed yet
